@@ -36,7 +36,7 @@ SHARD_TIMEOUT = {"quick": 300, "thorough": 1500}
 
 def all_cases(tier: str, seed: int):  # noqa: ANN201
     yield from treecheck.cases("c03", tier, seed, 4000, 60000, extra=lambda: itertools.chain(treefam.spawn_into_cancelled(), treefam.scope_chains(), treefam.swallow_and_reblock(), treefam.start_into_cancelled(),
-                                                             treefam.ninf_deadlines()))
+                                                             treefam.ninf_deadlines(), treefam.late_shield()))
 
 
 def shards(tier: str, seed: int) -> list[dict]:
